@@ -66,6 +66,7 @@ def case_strategy():
     later = st.one_of(
         st.tuples(st.just("update"), st.lists(pairs(), max_size=2), pairs(2)).map(list),
         st.tuples(st.just("set"), raw_names(), values()).map(list),
+        st.tuples(st.just("update-self"), st.booleans(), pairs(2)).map(list),
     )
     return st.fixed_dictionaries({"args": st.lists(arg, max_size=5), "kw": pairs(3), "later": st.lists(later, max_size=4), "via": st.sampled_from(["Tag", "div", "span"]), "poison": st.sampled_from([None, None, "key", "value", "update-key", "nonmapping"]), "ws_kw": st.sampled_from([None, None, True, False])})
 
@@ -218,6 +219,20 @@ def body(case, note):
             before = set(model)
             tag.attrs.update(*[{r: val_obj(v) for r, v in d} for d in ds], **{r: val_obj(v) for r, v in k2})
             a2, _ = merge_call(model, [p for d in ds for p in d] + k2)
+            replaced = replaced or bool(before & set(a2))
+        elif st_[0] == "update-self":
+            # the tag's own attribute map handed to its own update(), before or after another dict
+            own = [(k, {"html": v.data} if isinstance(v, h.HTML) else v) for k, v in tag.attrs.items()]
+            k2 = uniq(st_[2])
+            more = {r: val_obj(v) for r, v in k2}
+            before = set(model)
+            if st_[1]:
+                tag.attrs.update(tag.attrs, more)
+                a2, _ = merge_call(model, own + k2)
+            else:
+                tag.attrs.update(more, tag.attrs)
+                # dict semantics of the accumulator: names of `more` first, then the own ones; existing names keep their place
+                a2, _ = merge_call(model, k2 + own)
             replaced = replaced or bool(before & set(a2))
         else:
             tag.attrs[st_[1]] = val_obj(st_[2])
